@@ -213,7 +213,9 @@ class Statement(object):
             rel_index = self.operand.left.extract_address_index_from_expression()
             expression = self.operand.left
             other_value = expression.right if expression.left.is_address() else expression.left
-            if expression.operation not in ["+", "-"] or not other_value.is_numeric():
+            if expression.operation not in ["+", "-"] or not other_value.is_numeric() or \
+                    (expression.operation == "-" and expression.right.is_address()):
+                # anything but label + n, n + label or label - n: the target is not near the label
                 self.force_pcr_16_bit()
                 return
             # A constant added to or taken from the label moves the target by at most its magnitude
